@@ -64,12 +64,15 @@ class BuckGophermapHandler(BaseHandler):
                     break
                 if re.search("\t", line):  # gophermap link
                     args = [arg.strip() for arg in line.split("\t")]
+                    if not args[0]:
+                        # No type character in front of the first tab.
+                        continue
 
                     if len(args) < 2 or not len(args[1]):
                         args[1] = args[0][1:]  # Copy display string to selector
 
                     selector = args[1]
-                    if selector[0] != "/" and selector[0:4] != "URL:":  # Relative link
+                    if selector[0:1] != "/" and selector[0:4] != "URL:":  # Relative link
                         selector = selectorbase + "/" + selector
 
                     entry = gopherentry.GopherEntry(selector, self.config)
@@ -80,7 +83,10 @@ class BuckGophermapHandler(BaseHandler):
                         entry.host = args[2]
 
                     if len(args) >= 4 and len(args[3]):
-                        entry.port = int(args[3])
+                        try:  # Don't crash if we can't parse the number
+                            entry.port = int(args[3])
+                        except ValueError:
+                            pass
 
                     if entry.gethost() is None and entry.getport() is None:
                         # If we're using links on THIS server, try to fill
